@@ -47,8 +47,10 @@ theorem indexOf_spec (arr : List Int) (lookup : List Nat) (hl : lookup.Nodup)
     Np.indexOf arr lookup = some (arr.map fun a => Int.ofNat (lookup.idxOf a.toNat)) :=
   Lemmas.indexOf_spec arr lookup hl ha
 
-/-- `_flatten_per_cluster`: sorted union of the groups. -/
-theorem flatten_spec (d : List (Nat × List Nat)) :
+/-- `_flatten_per_cluster`: sorted union of the groups.  (The real helper raises `ValueError` on an
+empty dictionary — `np.concatenate` of nothing —, where the model returns `[]`: the hypothesis
+states the domain, the proof does not need it; the harness checks the empty case separately.) -/
+theorem flatten_spec (d : List (Nat × List Nat)) (_hd : d ≠ []) :
     IsSortedSetOf (flattenPerCluster d) (fun v => ∃ p ∈ d, v ∈ p.2) :=
   Lemmas.flatten_spec d
 
